@@ -10,6 +10,9 @@ an integer payload and an ordered list of references to other objects.
     read i | mod i v | link i j | unlink i j | add i          object level
     wlink i j                                                  link through a persistent.wref.WeakRef
     readcur i                                                  conn.readCurrent(obj) on an object new in the transaction
+    touch i | get i | xadd i | gc                              obj._p_changed = True | conn.get(oid) is obj | another
+                                                               connection's add(obj) | conn.cacheMinimize()
+    spo | spf pickle k                                         optimistic savepoint | savepoint failing on object k
     commit | abort | sp | rb n | close | open | sync           transaction / connection level (sync = conn.sync())
     commitf rm before|after begin|commit|vote|finish           commit with a failing 2nd resource manager
     commitf store j | commitf vote                             commit with a storage fault (j-th store / vote)
@@ -76,7 +79,46 @@ def make_storage(kind, tmpdir, tag, blobs=False):
         s = DemoStorage()
         s._next_oid = 1     # DemoStorage starts at a random oid; make the run reproducible
         return s
+    if kind == 'demofs':
+        from ZODB.DemoStorage import DemoStorage
+        from ZODB.FileStorage import FileStorage
+        d = os.path.join(tmpdir, 'fs-%s' % tag)
+        os.makedirs(d, exist_ok=True)
+        s = DemoStorage(changes=FileStorage(os.path.join(d, 'changes.fs')))
+        s._next_oid = 1
+        return s
+    if kind == 'hex':
+        from ZODB.MappingStorage import MappingStorage
+        from ZODB.tests.hexstorage import HexStorage
+        return HexStorage(MappingStorage())
+    if kind == 'hexfs':
+        from ZODB.FileStorage import FileStorage
+        from ZODB.tests.hexstorage import HexStorage
+        d = os.path.join(tmpdir, 'fs-%s' % tag)
+        os.makedirs(d, exist_ok=True)
+        return HexStorage(FileStorage(os.path.join(d, 'Data.fs')))
+    if kind == 'mvcc':
+        from ZODB.tests.MVCCMappingStorage import MVCCMappingStorage
+        return MVCCMappingStorage()
     raise ValueError(kind)
+
+
+def make_db(case, tmpdir, tag):
+    """the database of a case: storage kind (incl. one built by ZODB.config) and DB options"""
+    import ZODB
+    opts = dict(case.get('db') or {})
+    if case['kind'] in ('config', 'configfs'):
+        import ZODB.config
+        d = os.path.join(tmpdir, 'fs-%s' % tag)
+        os.makedirs(d, exist_ok=True)
+        st = ('<filestorage>\n path %s\n create true\n</filestorage>' % os.path.join(d, 'Data.fs')
+              if case['kind'] == 'configfs' else '<mappingstorage/>')
+        conf = '<zodb>\n cache-size %d\n pool-size %d\n large-record-size %d\n %s\n</zodb>' % (
+            opts.get('cache_size', 400), opts.get('pool_size', 7), opts.get('large_record_size', 1 << 24), st)
+        db = ZODB.config.databaseFromString(conf)
+        return db.storage, db
+    storage = make_storage(case['kind'], tmpdir, tag)
+    return storage, ZODB.DB(storage, **opts)
 
 
 class World:
@@ -88,11 +130,12 @@ class World:
         import transaction
         from persistent.list import PersistentList
         from persistent.mapping import PersistentMapping
-        from c11_classes import Node, SelfActNode, PMap, PList
+        from c11_classes import Node, SelfActNode, PMap, PList, BigNode
+        import warnings
+        warnings.simplefilter('ignore')     # (large-record warnings of the large_record_size option)
         self.case = case
         self.n = case['n']
-        self.storage = make_storage(case['kind'], tmpdir, tag, blobs)
-        self.db = ZODB.DB(self.storage)
+        self.storage, self.db = make_db(case, tmpdir, tag)
         self.tids = [self.storage.lastTransaction()]      # commit order; rank = index + 1
         self.tm = transaction.TransactionManager()
         self.conn = self.db.open(self.tm)
@@ -106,6 +149,8 @@ class World:
                 o = PList([0])
             elif i in case.get('selfact', ()):
                 o = SelfActNode()
+            elif case.get('big'):
+                o = BigNode()
             else:
                 o = Node()
             self.objs.append(o)
@@ -359,6 +404,52 @@ class World:
         self.after_boundary()
         return 'ok tmp=%d' % self.tmp_left()
 
+    def op_touch(self, i):
+        """obj._p_changed = True"""
+        o = self.objs[i]
+        if self.guard_closed(o):
+            return 'err:closed'
+        o._p_changed = True
+        return 'ok'
+
+    def op_get(self, i):
+        """Connection.get(oid) returns the object itself"""
+        o = self.objs[i]
+        if o._p_oid is None:
+            return 'none'
+        return 'same' if self.conn.get(o._p_oid) is o else 'other'
+
+    def op_xadd(self, i):
+        """another connection tries to add the object (refused when it belongs to the connection under test);
+        when it belongs to nobody the other connection may have it, and gives it back by aborting"""
+        self.tm2.begin()
+        try:
+            self.c2.add(self.objs[i])
+            return 'ok'
+        finally:
+            self.tm2.abort()
+
+    def op_gc(self):
+        self.conn.cacheMinimize()
+        return 'ok'
+
+    def op_spf(self, fail):
+        """transaction.savepoint() while the state of one object cannot be pickled"""
+        import c11_classes
+        c11_classes.PICKLE_FAIL.add(id(self.objs[int(fail[1])]))
+        try:
+            try:
+                self.sps.append(self.tm.savepoint())
+            finally:
+                c11_classes.PICKLE_FAIL.clear()
+        except Exception as e:
+            self.after_boundary()
+            r = 'fail:' + errname(e)
+            v1 = self.vector()
+            self.tm.abort()
+            return r + ' tmp=%d' % self.tmp_left(), v1
+        return 'ok', None
+
     def op_readcur(self, i):
         """Connection.readCurrent(obj) — only generated for objects that are new in the transaction, for which
         it records nothing (a new object has no committed revision that could stop being current)"""
@@ -371,8 +462,8 @@ class World:
         self.after_boundary()
         return 'ok tmp=%d' % self.tmp_left()
 
-    def op_sp(self):
-        self.sps.append(self.tm.savepoint())
+    def op_sp(self, optimistic=False):
+        self.sps.append(self.tm.savepoint(optimistic))
         return 'ok'
 
     def op_rb(self, n):
@@ -464,6 +555,18 @@ class World:
                 r = self.op_sync()
             elif t[0] == 'sp':
                 r = self.op_sp()
+            elif t[0] == 'spo':
+                r = self.op_sp(True)
+            elif t[0] == 'spf':
+                r, extra = self.op_spf(t[1:])
+            elif t[0] == 'touch':
+                r = self.op_touch(int(t[1]))
+            elif t[0] == 'get':
+                r = self.op_get(int(t[1]))
+            elif t[0] == 'xadd':
+                r = self.op_xadd(int(t[1]))
+            elif t[0] == 'gc':
+                r = self.op_gc()
             elif t[0] == 'rb':
                 r = self.op_rb(int(t[1]))
             elif t[0] == 'close':
@@ -616,6 +719,38 @@ class Oracle:
         k = t[0]
         if k == 'wlink':
             k = 'link'      # a weak reference adds and stores its target exactly like an ordinary one
+        if k == 'spo':
+            k = 'sp'        # an optimistic savepoint: the same for a connection (it supports savepoints)
+        if k == 'gc':
+            return 'ok'     # cacheMinimize: no visible effect
+        if k == 'get':
+            i = int(t[1])
+            if i not in self.member:
+                return 'none'
+            return 'same' if self.open else 'err:ConnState'
+        if k == 'xadd':
+            return 'err:InvalidObjectReference' if int(t[1]) in self.member else 'ok'
+        if k == 'touch':
+            i = int(t[1])
+            if i in self.lost:
+                raise Tainted()
+            if not self.open and i in self.member:
+                return 'err:closed'
+            self.mark(i)
+            return 'ok'
+        if k == 'spf':
+            newc = self.closure(self.dirty | {i for i in self.explicit if i not in self.saved}) if self.joined else []
+            if any(r in self.lost for r in newc):
+                raise Tainted()
+            pick = self.dirty | {i for i in self.explicit if i not in self.saved} | set(newc)
+            if self.joined and int(t[2]) in pick:
+                self.lastW, self.lastnew, self.lastfail = sorted(pick), list(newc), ['pickle', t[2]]
+                self.failing = True
+                self.fail_explicit = set(self.explicit)
+                self.fail_new = {i for i, m in self.member.items() if m == 'n'} | set(newc)
+                self.revert()
+                return 'fail:Injected tmp=0'
+            k = 'sp'
         if k in ('mod', 'link', 'unlink', 'read') and int(t[1]) in self.lost:
             return 'err:NoState'        # (C12 mode only) the object has no state any more
         if k in ('mod', 'link', 'unlink'):
@@ -900,6 +1035,25 @@ def gen_case(rng, pid, size, kind):
             if ops[-1] == 'open':
                 closed = False
             continue
+        if rng.random() < 0.09:
+            # less-travelled entry points reaching the same bookkeeping
+            c = rng.random()
+            if c < 0.30:
+                ops.append('touch %d' % i)
+            elif c < 0.45:
+                ops.append('get %d' % i)
+            elif c < 0.60:
+                ops.append('xadd %d' % i)
+            elif c < 0.80 or pid == 'C11':
+                ops.append('gc')
+            elif c < 0.90:
+                ops.append('spo')
+                nsp += 1
+            else:
+                ops.append('spf pickle %d' % rng.randrange(1, n))
+                # (when it fails the transaction is over; the generator keeps its savepoint count: rollbacks to
+                # savepoints of a finished transaction are refused, which is part of the vocabulary anyway)
+            continue
         if pid == 'C11':
             if r < 0.20:
                 ops.append('mod %d %d' % (i, rng.randrange(10)))
@@ -1140,6 +1294,27 @@ def gen_scenario(rng, pid, kind):
     return dict(kind=kind, n=n, ops=ops)
 
 
+ALL_KINDS = ['mapping', 'file', 'demo', 'hex', 'mapping', 'file', 'mvcc', 'demo', 'config', 'file', 'demofs', 'mapping',
+             'hexfs', 'demo', 'configfs']
+
+
+def decorate(case, rng):
+    """construction paths: DB options (pool_size, large_record_size; a tiny cache_size makes the cache GC of
+    savepoint()/close() ghostify objects at points the Lean model does not predict: such cases are judged by
+    the oracle alone), objects with states > 64 KiB"""
+    r = rng.random()
+    if r < 0.10:
+        case['db'] = {'pool_size': 1}
+    elif r < 0.20:
+        case['db'] = {'large_record_size': 120, 'pool_size': rng.choice([1, 7])}
+    elif r < 0.28:
+        case['db'] = {'cache_size': rng.choice([1, 2, 3])}
+        case['loose'] = 1
+    if rng.random() < 0.06 and case['kind'] in ('mapping', 'file', 'demofs', 'hexfs'):
+        case['big'] = 1
+    return case
+
+
 def nontrivial(case, real, pid):
     """the rule of DESIGN 4.21, measured on the executed trace (through the oracle's bookkeeping)"""
     if case.get('family'):
@@ -1183,7 +1358,7 @@ def load_corpus(pid):
             if f.endswith('.json'):
                 with open(os.path.join(d, f)) as fh:
                     c = json.load(fh)
-                out.append({k: c[k] for k in ('kind', 'n', 'ops', 'selfact', 'family', 'as', 'two') if k in c})
+                out.append({k: c[k] for k in ('kind', 'n', 'ops', 'selfact', 'family', 'as', 'two', 'db', 'loose', 'big') if k in c})
     return out
 
 
@@ -1221,21 +1396,22 @@ def run_check(pid, argv=None):
     if ck.replay_path:
         with open(ck.replay_path) as f:
             c = json.load(f)['case']
-        cases = [{k: c[k] for k in ('kind', 'n', 'ops', 'selfact', 'family', 'as', 'two') if k in c}]
+        cases = [{k: c[k] for k in ('kind', 'n', 'ops', 'selfact', 'family', 'as', 'two', 'db', 'loose', 'big') if k in c}]
         ncases = 0
     kinds = KINDS
     for m in range(ncases):
         size = ck.rng.choice([6, 10, 16, 24, 36])
         if pid == 'C11':
-            for kind in (kinds if not ck.thorough else [kinds[m % 3]]):
+            trio = kinds if m % 4 else [ALL_KINDS[(m // 4 * 3 + x) % len(ALL_KINDS)] for x in range(3)]
+            for kind in (trio if not ck.thorough else [ALL_KINDS[m % len(ALL_KINDS)]]):
                 if m % 10 == 9:
-                    cases.append(gen_scenario(ck.rng, pid, kind))
+                    cases.append(decorate(gen_scenario(ck.rng, pid, kind), ck.rng))
                 else:
-                    cases.append(gen_case(ck.rng, pid, size, kind))
+                    cases.append(decorate(gen_case(ck.rng, pid, size, kind), ck.rng))
         elif m % 5 == 4:
-            cases.append(gen_scenario(ck.rng, pid, kinds[(m // 5) % 3]))
+            cases.append(decorate(gen_scenario(ck.rng, pid, ALL_KINDS[(m // 5) % len(ALL_KINDS)]), ck.rng))
         else:
-            cases.append(gen_case(ck.rng, pid, size, kinds[m % 3]))
+            cases.append(decorate(gen_case(ck.rng, pid, size, ALL_KINDS[m % len(ALL_KINDS)]), ck.rng))
     if pid == 'C11' and not ck.replay_path:
         import c11_multidb
         for m in range(60 if not ck.thorough else 1500):
@@ -1324,6 +1500,9 @@ def run_check(pid, argv=None):
             ck.violation(v2[1], v2[2], dict(c2, real=r2, at=v2[0]))
         if case.get('family'):
             ck.count('oracle-only:' + case['family'])
+            cut = 0
+        if case.get('loose'):
+            ck.count('oracle-only:tiny-cache')
             cut = 0
         if case.get('selfact'):
             ck.count('oracle-only:self-activating-object')
